@@ -213,6 +213,7 @@ pub fn run_case(c: &Case) {
     "p4" => crate::interp_ops::run::<P4>(c),
     "s16" => crate::interp_ops::run::<S16>(c),
     "a32" => crate::interp_ops::run::<A32>(c),
+    "a16" => crate::interp_ops::run::<A16>(c),
     "big" => crate::interp_ops::run::<Big>(c),
     other => tl!("O bad-case unknown cfg {}", other),
   }
